@@ -44,12 +44,12 @@ LEVEL.update({
             "C11_parse_ids_canonical states it for the document of every accepted parse"),
     "C15": ("Theorems: the matcher state stays consistent through every parse (invariant), reset makes a parse independent of everything the matcher was used for before (C15_used_equals_fresh for any history), the builder/queue/errors are fresh per parse, ids shift uniformly with the counter (parser, compiler, stream), generic frame lemma for arbitrary schedules and its instance for the parse loop, determinism. Tie (carries the weight for heap effects): all ordered pairs/triples of state-perturbing documents through one Parser+TokenMatcher vs fresh instances, one shared Compiler/TokenMatcher through long document sequences, random schedules of concurrent parses gated at every token read (with and without an explicit matcher).",
             "heap aliasing and preemption inside a match call cannot be exhibited by a functional model"),
-    "C16": ("Per-line invariance theorems of the matcher model for the token it actually sees (CRLF for all 14 kinds, final newline, trailing blanks, indentation shifting only columns / tag-error column / the doc string's indent) under kernel-checked dialect facts and a proved separator invariant; kind-level whole-run theorems, generic in the table under kernel-checked facts: an inserted blank line adds exactly one build Empty, a comment before a structural line adds exactly one build Comment. Whole documents, both error modes, on the imperative model (lock-step simulation of two runs): C16_crlf_document, C16_final_newline_document, C16_trailing_blanks_document (outcome - document or exact error list - and final context equal). C16_blank_line_document / C16_indent_document: the outcome of the text with a blank line inserted outside descriptions and doc strings / with keyword, step, tag, row lines indented further is exactly the renamed outcome of the original (line numbers after the insertion point +1 / columns of moved lines +w), accepted or rejected, both modes. Tie: metamorphic pairs on the implementation (LF/CRLF, final newline, trailing blanks, indentation, doc-string block indentation, blank line, comment line) at sampled admissible positions; file loading incl. BOM and long paths; theorem-driven: the driver evaluates the theorems' hypotheses (op layoutok) and the implementation must give exactly the renamed outcome wherever they hold.",
-            "C16_comment_line_document covers the states where a comment is built and the state stays (not the eight states directly after a keyword line, where it opens a Description) and C16_indent_closing_delimiter_document the closing delimiter; a doc string moving as one block is by the tie; trailing blanks after a step line that is a keyword prefix is known finding F8 (the theorem carries the hypothesis StepTailFree)"),
-    "C17": ("Theorems: exact envelope list and counter for all 8 option combinations (accepted and rejected sources), source/uri/parseError fields, every envelope's JSON satisfies the written-out Cucumber Messages shape (Spec.wellShaped) incl. compiler output never having a Conjunction step type, locality and order of sources. Tie/oracle: sequences of sources x options vs the model, json round trip, shape validator, SourceEvents on files with CRLF/CR/BOM.",
+    "C16": ("Per-line invariance theorems of the matcher model for the token it actually sees (CRLF for all 14 kinds, final newline, trailing blanks, indentation shifting only columns / tag-error column / the doc string's indent) under kernel-checked dialect facts and a proved separator invariant; kind-level whole-run theorems, generic in the table under kernel-checked facts: an inserted blank line adds exactly one build Empty, a comment before a structural line adds exactly one build Comment. Whole documents, both error modes, on the imperative model (lock-step simulation of two runs): C16_crlf_document, C16_final_newline_document, C16_trailing_blanks_document (outcome - document or exact error list - and final context equal). C16_blank_line_document / C16_indent_document: the outcome of the text with a blank line inserted outside descriptions and doc strings / with keyword, step, tag, row lines indented further is exactly the renamed outcome of the original (line numbers after the insertion point +1 / columns of moved lines +w), accepted or rejected, both modes. C16_comment_line_document_all: a comment line inserted in ANY state that reads it as a comment (self-loop states, and the description-opening states directly after a keyword line when the next line is absent or not blank) yields the original outcome with later lines moved down and exactly this comment added. C16_indent_docstring_block_document: a doc string moving as one block (opening delimiter and content by the same number of blanks, closing delimiter by any) changes only columns. Tie: metamorphic pairs on the implementation (LF/CRLF, final newline, trailing blanks, indentation, doc-string block indentation, blank line, comment line) at sampled admissible positions; file loading incl. BOM and long paths; theorem-driven: the driver evaluates the theorems' hypotheses (op layoutok) and the implementation must give exactly the renamed outcome wherever they hold.",
+            "C16_comment_line_document_all (Props/C16Doc6) covers every state, including the eight states directly after a keyword line (next line absent or not blank; the blank-line follower is where the conclusion is false, kernel-checked); C16_indent_docstring_block_document (Props/C16Doc7) is the doc string moving as one block at document level; file loading (open/readline) is outside the model and compared by the tie; trailing blanks after a step line that is a keyword prefix is known finding F8 (the theorem carries the hypothesis StepTailFree)"),
+    "C17": ("Theorems: exact envelope list and counter for all 8 option combinations (accepted and rejected sources), source/uri/parseError fields, every envelope's JSON satisfies the written-out Cucumber Messages shape (Spec.wellShaped) incl. compiler output never having a Conjunction step type, locality and order of sources; Props/C17Stop: a stream whose parser was switched to stop-at-first-error mode yields for an accepted source exactly what the collecting stream yields and for a rejected source exactly one parseError envelope, that of the first collected error. Tie/oracle: sequences of sources x options (a quarter of them in stop mode) vs the model, json round trip, shape validator, SourceEvents on files with CRLF/CR/BOM and on path lists with repeated paths.",
             "json.dumps is trusted"),
     "C18": ("Theorems: C18_reads_in_order (the main loop reads the tokens of lines 1,2,3,... in order however often look-ahead moved them through the queue) and C18_accepted_sequence (for an accepted document the builder receives exactly one token per physical line, in order, with that line's text and number, then one EOF) from matcher determinism, dialect facts and kernel-checked queue facts of the regenerated table; partition (every token read is built xor reported unexpected); look-ahead conserves the queue. Tie: built tokens and line numbers vs the model; all tag/comment/blank runs <= L and long runs through the look-ahead queue; one Parser reused; corpus token listings.",
-            "the token listing format is compared by the tie and the corpus listings (a finite test)"),
+            "TokenFormatterBuilder is modelled (Model/Formatter.lean) and C18_listing_is_builds / C18_listing_lockstep / C18_listing_accepted_lines tie the printed listing to the tokens of the AST-builder run; equality with the corpus reference listings is a finite comparison (a test)"),
 })
 
 TECH = "Lean 4 theorems about an executable model + correspondence check (model/spec vs real code, in-process)"
